@@ -250,7 +250,25 @@ class Program:
                 enc = r.random() < 0.5
                 self.queued += [{"op": "ctor", "s": mk_b.format(tail), "encoded": enc}, {"op": "read", "x": n0, "a": acc_a}, {"op": "read", "x": n0 + 1, "a": acc_b}]
                 return {"op": "ctor", "s": mk_a.format(head), "encoded": enc}
-            elif kind < 0.8:
+            elif kind < 0.72:
+                # ONE degenerate authority text (empty host next to a port / userinfo) through a LAZY route (pre-encoded constructor, modifier
+                # result) whose netloc accessors are then read, and through the eager parser under a scheme that requires a host - either order
+                A = r.choice([":80", "u@:80", "u:p@", ":0", "u@", ":p@:81", "u:@:8042", "@:1", ":65535"])
+                sp = r.choice(["http", "https", "ws", "wss", "ftp"])
+                n0 = len(self.pool)
+                route = r.randrange(3)
+                if route == 0:
+                    lazy, x = [{"op": "ctor", "s": f"foo://{A}/x", "encoded": True}], n0
+                elif route == 1:
+                    lazy, x = [{"op": "ctor", "s": f"//{A}/x", "encoded": True}], n0
+                else:
+                    lazy, x = [{"op": "ctor", "s": f"foo://{A}/x", "encoded": False}, {"op": "mod", "x": n0, "m": "with_path", "args": ["/y"]}], n0 + 1
+                rd = r.choice([{"op": "read", "x": x, "a": r.choice(["raw_host", "explicit_port", "raw_user", "host", "port", "str", "authority"])}, {"op": "readall", "x": x, "seed": r.randrange(1 << 30)}])
+                eager = {"op": "ctor", "s": f"{sp}://{A}/p", "encoded": False}
+                seq = lazy + [rd, eager] if r.random() < 0.7 else [eager] + lazy + [rd]
+                self.queued += seq[1:]
+                return seq[0]
+            elif kind < 0.85:
                 t = r.choice(["a%20b", "a b", "a%zz", "%", "a@b", "é"])
                 a = {"op": "mod", "x": self.pick(), "m": "with_user", "args": [t]}
                 b = r.choice([{"op": "build", "kw": {"scheme": "http", "host": "example.com", "user": t}}, {"op": "build", "kw": {"scheme": "http", "authority": f"{t}@example.com"}},
